@@ -158,6 +158,7 @@ def run(an: Analysis, rep):
     from .common import purity
     rep.run(purity, an, rep, "R02.P", ["from_code"])
     rep.run(r02f, an, rep)
+    rep.run(r02p, an, rep)
     from . import c04 as _c04w
     from .common import SharedRules as _SR2w, assert_guard_rule as _agr, identity_rule as _idr
     rep.run(_c04w.r04f, an, _SR2w(rep, "R02.W", "the function that builds the data from a code object, folded over witness code objects (shared with C04's R04.W): the constant an instruction loads "
@@ -569,6 +570,12 @@ DECODER_REJECTIONS = {
     ("code_data._blocks::bytes_to_blocks", "NotImplementedError"):
         (3, "a byte that is not an opcode: the compiler only writes defined opcodes (C11's R11.O decides the test); a later code unit of an instruction has its own line-table entry: reachable, decided (and listed as a known finding) by C01's R01.A; a jump target that is not the first code unit "
             "of an instruction: CPython's assembler resolves jumps to the first unit of the target instruction (compiler contract), C13's R13.6 decides the test itself"),
+    ("code_data._blocks::_parse_bytes", "NotImplementedError"):
+        (2, "a fourth EXTENDED_ARG prefix / prefixes behind the last instruction: CPython's assembler writes at most three prefixes, each in front of an instruction (R02.8 folds both tests over witness code units)"),
+    ("code_data._blocks::ToArgs.found_index", "NotImplementedError"):
+        (1, "an operand that wrapped around to a negative number (three prefixes with the top bit set, hand-written): the compiler's operands index their table (R09.7 folds the test)"),
+    ("code_data._line_mapping::to_line_mapping", "NotImplementedError"):
+        (1, "a 3.10 table that writing the decoded mapping does not reproduce: R10.F folds the codec over the tables the 3.10 assembler writes - all are reproduced, except adjacent ranges without a line from a tree with different negative line numbers (known finding of C10)"),
     ("code_data._code_data::to_code_data", "NotImplementedError"):
         (2, "co_nlocals != len(co_varnames): the compiler sets co_nlocals from the length of the varnames tuple; two free variables of the same name: the compiler's symbol table "
             "lists every free name once"),
@@ -862,17 +869,28 @@ def r027(an, rep):
                 dep[st.target.id] = dep.get(st.target.id, set()) | deps_of(st.value)
             elif isinstance(st, ast.If):
                 before = {k: set(v) for k, v in dep.items()}
-                flow(st.body)
+                dead_a = flow(st.body)
                 a = {k: set(v) for k, v in dep.items()}
                 dep.clear()
                 dep.update(before)
-                flow(st.orelse)
+                dead_b = flow(st.orelse)
+                if dead_a and dead_b:
+                    return True
+                if dead_a:
+                    continue  # (the arm that raises contributes nothing to what is carried on)
+                if dead_b:
+                    dep.clear()
+                    dep.update(a)
+                    continue
                 for k in set(a) | set(dep):
                     dep[k] = a.get(k, set()) | dep.get(k, set())
+            elif isinstance(st, ast.Raise):
+                return True
             elif isinstance(st, (ast.Expr, ast.Pass)):
                 continue
             else:
                 raise AnalysisError(f"{pf.qual}: statement `{norm_src(st)[:60]}` on the prefix path not modelled")
+        return False
     flow(loop.body[:bi])
     flow(pre)
     for v in carried:
@@ -1084,3 +1102,38 @@ def r02f(an, rep, rule="R02.F"):
         rep.add(rule, f"{g.qual}::witness code units [{vname(V)}]", not bad, loc(g.module, g.node),
                 f"{len(WV)} witness sequences (cell / free variables, tables met out of order, unreferenced entries, relative / absolute / prefixed jumps, numeric operands): as CPython's disassembler reports them"
                 if not bad else bad[0] + (f" (+{len(bad) - 1} more)" if len(bad) > 1 else ""))
+
+
+def r02p(an, rep, rule="R02.8"):
+    """Code units the instruction format cannot hold are refused, not repaired: EXTENDED_ARG prefixes behind the last instruction belong to no
+    instruction, a fourth prefix shifts the first one out of the interpreter's C int - data decoded from either would be written back as other
+    bytes.  The parser is folded as a whole (statements behind its loop included) over witness code units."""
+    from sa.feval import BlockOutcome
+    from .c03 import package_evaluator
+    pf = find_parser(an)
+    EXT, OP = 144, 100
+    W = [
+        ("a prefix behind the last instruction", [(OP, 1), (EXT, 7)], True),
+        ("only prefixes", [(EXT, 1), (EXT, 2)], True),
+        ("four prefixes", [(EXT, 1), (EXT, 0), (EXT, 0), (EXT, 0), (OP, 0)], True),
+        ("three prefixes", [(EXT, 1), (EXT, 0), (EXT, 0), (OP, 0)], False),
+        ("three prefixes, then a prefixed instruction", [(EXT, 1), (EXT, 0), (EXT, 0), (OP, 0), (EXT, 2), (OP, 3)], False),
+        ("no code at all", [], False),
+    ]
+    bad = []
+    for name, units, want_raise in W:
+        ev, _R = package_evaluator(an, pf.module, (3, 10))
+        ev.lib["dis"] = dict(ev.lib["dis"], EXTENDED_ARG=EXT)
+        ev.lib["EXTENDED_ARG"] = EXT
+        try:
+            out = ev.call_method(pf.node, bytes(x for u in units for x in u))
+            raised = False
+        except BlockOutcome:
+            raised = True
+        except Exception as ex:  # noqa: BLE001 - a gap of the evaluator, never a verdict
+            raise AnalysisError(f"{pf.qual}: not evaluable on the witness code units '{name}' ({type(ex).__name__}: {ex})")
+        if raised != want_raise:
+            bad.append(f"{name} {units}: {'refused' if raised else 'accepted (' + str(len(out)) + ' instruction(s))'}")
+    rep.add(rule, f"{pf.qual}::code units the format cannot hold are refused", not bad, loc(pf.module, pf.node),
+            "prefixes behind the last instruction and a fourth prefix raise; up to three prefixes and empty code do not" if not bad else
+            bad[0] + (f" (+{len(bad) - 1} more)" if len(bad) > 1 else "") + " - (opcode 144 = EXTENDED_ARG) from_code returns data for bytes it cannot write again: to_code() gives other code units, silently")
